@@ -2,7 +2,7 @@
    Only ExtrOcamlBasic (bool, option, list, prod, unit, sumbool -> OCaml's own types);
    N, Z, positive, nat stay the extracted inductive types.  No Extract Constant. *)
 From Coq Require Extraction ExtrOcamlBasic.
-From Shred Require Import Base SrcParams Plan PlanObs Exec ExecObs Visit Fault.
+From Shred Require Import Base SrcParams Plan PlanObs Exec ExecObs Visit Fault World.
 Extraction Language OCaml.
 Extraction "extracted/model.ml"
   cap join_slack time_values tuple_arities params_source
@@ -12,4 +12,5 @@ Extraction "extracted/model.ml"
   rw_conflict eff_reads eff_writes find_reg reg_tag dep_tags
   accept_disp trace_seq group_trace ev_eqb o_once o_no_overlap o_preds_done o_tl_last o_inside must_precede subtree_tags model_layout
   visits leaf_tags
-  faccept_disp ftrace_seq fgroup.
+  faccept_disp ftrace_seq fgroup
+  World.step World.empty_world World.probe World.dropped World.run.
